@@ -169,13 +169,8 @@ def erase(a, ident_dtype=None):
     if a[0] == "V":
         return a
     _, cq, ch, dn, nd, at = a
-    nd2 = []
-    for k, v in nd:
-        if cq == "CIdentity" and k in ("dtype", "device"):
-            continue
-        if cq == "CCat" and k == "output_device":
-            continue
-        nd2.append((k, v))
+    # the dtype / device bookkeeping entries (Identity, Cat; Zero once it forwards them) legitimately change
+    nd2 = [(k, v) for k, v in nd if k not in ("dtype", "device", "output_device")]
     at2 = [(k, v) for k, v in at if not (k in ("dtype", "device"))]
     return ("Op", cq, tuple(erase(x) for x in ch), tuple(dn), tuple(nd2), tuple(at2))
 
@@ -442,6 +437,24 @@ def float_leaf_tensors(o, out=None):
     return out
 
 
+FLAG_ATTRS = ("upper", "batch_repeat", "diag_shape", "cat_dim", "num_outputs_per_input", "m", "n", "sizes")
+
+
+def public_flags(o, out=None, path="0"):
+    """(path, class, attribute, value) of the public flag attributes of every node, read from the objects themselves"""
+    from linear_operator.operators import LinearOperator
+    out = [] if out is None else out
+    for a in FLAG_ATTRS:
+        if a in getattr(o, "__dict__", {}):
+            v = o.__dict__[a]
+            if isinstance(v, (bool, int, torch.Size, tuple, list, torch.device)) or v is None:
+                out.append((path, type(o).__name__, a, str(v)))
+    for i, x in enumerate(itertools.chain(o._args, o._kwargs.values())):
+        if isinstance(x, LinearOperator):
+            public_flags(x, out, "%s.%d" % (path, i))
+    return out
+
+
 def set_rg(o, pattern):
     ls = float_leaf_tensors(o)
     seen = set()
@@ -577,6 +590,13 @@ def direct_check(case, o, res, exc, meta, heavy=True):
         d = first_diff(erase(case.oin), erase(a_out))
         if d:
             fails.append({"fail": d[1], "class": (d[0] or "?").lstrip("(").split()[0]})
+    if structural and not any(f["fail"].split(":")[0] in ("class", "arity", "kind") for f in fails):
+        fi, fo = public_flags(o), public_flags(res)
+        if fi != fo:
+            bad = next((x for x, y in zip(fi, fo) if x != y), (fi + fo)[min(len(fi), len(fo)) - 1 if fi and fo else 0])
+            if not any(f["fail"].startswith(("flag:", "kwarg:")) for f in fails):
+                fails.append({"fail": "flag:" + bad[2], "class": "C" + bad[1].replace("LinearOperator", "").replace("KroneckerProduct", "Kron"),
+                              "got": str(fo[:4]), "want": str(fi[:4])})
     if tuple(res.shape) != tuple(o.shape):
         fails.append({"fail": "shape", "got": list(res.shape), "want": list(o.shape)})
     # dtype of the result
@@ -823,6 +843,13 @@ def special_exprs(rng):
     m3 = {"shape": [3], "data": [1, 0, 1], "bool": True}
     out.append(("masked_interp", {"cls": "Masked", "base": ob.gen(rng, "Interpolated", batch=[], m=3, n=3, depth=1, child="Dense"),
                                   "row_mask": m3, "col_mask": {"shape": [3], "data": [1, 1, 0], "bool": True}}))
+    # a sub-operator WITHOUT tensors (empty representation) in front of arguments that have some: index bookkeeping of the tree
+    ident = {"cls": "Identity", "n": 3, "batch": []}
+    out.append(("empty_repr_first_sum", {"cls": "Sum", "ops": [ident, dense(3), {"cls": "Diag", "d": r([3])}]}))
+    out.append(("empty_repr_first_constmul", {"cls": "ConstantMul", "base": ident, "c": r([], 2, 3)}))
+    out.append(("empty_repr_first_matmul", {"cls": "Matmul", "l": {"cls": "TransposePermutation", "m": 2}, "r": dense(4, 2)}))
+    out.append(("empty_repr_first_added", X("AddedDiagLinearOperator", [ident, dense(3)])))
+    out.append(("empty_repr_mid_kron", {"cls": "Kron", "ops": [dense(2), {"cls": "Identity", "n": 2, "batch": []}, dense(2, 3)]}))
     out.append(("lowrank_added", ob.gen(rng, "LowRankRootAddedDiag", batch=[2], m=3)))
     out.append(("sumkron", ob.gen(rng, "SumKron", batch=[], m=4)))
     out.append(("mul", ob.gen(rng, "Mul", batch=[2], m=3)))
@@ -879,6 +906,11 @@ def grid(ctx):
             continue
         add("C:%s" % w, e, DT_MIXED[i % 2:i % 2 + 1] if quick else DT_MIXED, core_q if not quick else core_q[i % 2::2], RGS)
     # D. kwargs layouts / normalising constructors / flag combinations
+    # K. the witness of every listed finding is replayed on every run
+    for ent in common.load_known():
+        cs = (ent.get("replay") or {}).get("case") if ent.get("property") == PROP else None
+        if cs:
+            cells.append(("K:%s" % ent.get("id"), cs["expr"], cs["src"], cs["default_dtype"], cs["requires_grad"], tuple(cs["query"])))
     for name, e in special_exprs(rng):
         try:
             build(e, torch.float64)
@@ -952,7 +984,20 @@ def finding_key(meta, c, f):
             # an operator class without floating data and a hard-wired dtype sits in the tree: every dtype mismatch of the
             # enclosing operators is its consequence
             return {"class": nom[0], "fail": "nominal-dtype"}, e2, q2, f2
+    if kind == "requires_grad" and cls != "Kron" and spread_only(f2):
+        kr = [root_class(x) for x in all_subs(e2) if root_class(x) in ("Kron", "KronTriangular", "KronDiag", "SumKron", "KronAddedDiag")]
+        if kr:
+            # requires_grad only SPREADS (no tensor lost its flag) and a Kronecker operator sits below: its constructor
+            # re-applies requires_grad_ per factor whenever an enclosing constructor rebuilds it with a batch shape
+            return {"class": "Kron", "fail": "requires_grad"}, e2, q2, f2
     return {"class": cls, "op": family(q2), "fail": kind}, e2, q2, f2
+
+
+def spread_only(f):
+    g, w = f.get("got"), f.get("want")
+    if isinstance(g, list) and isinstance(w, list) and len(g) == len(w):
+        return all(a or not b for a, b in zip(g, w)) and g != w
+    return g is True and w is False
 
 
 def report(ctx, meta, c, model_disagrees):
@@ -1014,12 +1059,12 @@ def run(ctx):
     if meta is None:
         ctx.say("translator rejected the source:", tr_err)
         meta_fb = fallback_meta()
-        found = 0
+        before = ctx.violations
         if meta_fb is not None:
             cells = grid(ctx)
             cases, _ = execute(ctx, meta_fb, cells)
-            found = report_direct(ctx, meta_fb, cases, set())
-        if not found:
+            report_direct(ctx, meta_fb, cases, set())
+        if ctx.violations == before:
             ctx.violation({"kind": "translator-rejected-source", "error": tr_err,
                            "obligation": "coq/C14/gen/Ctors.v / AllocSites.v could not be regenerated"}, no_input=True)
         ctx.coverage.update({"obligations": len(common.property_obligations(PROP)), "discharged": 0,
@@ -1034,16 +1079,15 @@ def run(ctx):
     def on_fail(info):
         # a proof obligation over the regenerated tables no longer holds: look for a concrete failing input
         ctx.say("searching the implementation for a failing input ...")
-        n = report_direct(ctx, meta, cases, set(), limit=6)
-        if not n and not ctx.quick:
-            return False
-        if not n:
+        before = ctx.violations
+        report_direct(ctx, meta, cases, set(), limit=6)
+        if ctx.violations == before and ctx.quick:
             wide = common.Ctx.__new__(common.Ctx)
             wide.__dict__.update(ctx.__dict__)
             wide.tier = "thorough"
             cs2, _ = execute(ctx, meta, grid(wide))
-            n = report_direct(ctx, meta, cs2, set(), limit=6)
-        return n > 0
+            report_direct(ctx, meta, cs2, set(), limit=6)
+        return ctx.violations > before
     ok = common.proof_stage(ctx, on_fail)
     mism, notwf, failed, n_model, badconv, nconv = ([], [], [], 0, [], 0)
     t1 = time.time()
@@ -1056,9 +1100,16 @@ def run(ctx):
     n_direct = report_direct(ctx, meta, cases, set(mism)) if ok else 0
     # disagreements between model and implementation on cases where the property holds: the model is wrong
     seen = set()
+    repaired = {}
     for i in mism:
         c = cases[i]
         if c.fails:
+            continue
+        e = repaired_cell(c)
+        if e is not None and e.get("id") not in ctx.known_hit:
+            # the model transcribes the pinned (defective) code of a LISTED finding; the implementation now does what the
+            # property asks in that cell (the direct predicates hold): a repair, not an alarm
+            repaired[e["id"]] = repaired.get(e["id"], 0) + 1
             continue
         sig = (describe(c.e), family(c.q))
         if sig in seen:
@@ -1069,8 +1120,8 @@ def run(ctx):
                        "correspondence": "coq/C14/Check.v agree (Model.v vs the real classes)"}, no_input=True)
     for i in badconv[:3]:
         c = cases[i]
-        if c.fails:
-            continue            # a failing input: already reported through the direct predicates
+        if c.fails or ((repaired_cell(c) or {}).get("id", "") not in ctx.known_hit and repaired_cell(c) is not None):
+            continue            # a failing input: already reported through the direct predicates ; or a repaired finding
         ctx.violation({"kind": "specification-implementation-disagreement", "case": c.spec(), "input_term": lit(c.oin),
                        "observed_term": (lit(c.obs) if isinstance(c.obs, tuple) else str(c.obs)),
                        "what": "Conv.conv (the structural specification of the conversion) differs from what the library returned"},
@@ -1110,7 +1161,7 @@ def run(ctx):
                 "operator whose data dtype differs from the default dtype or that nests at least one sub-operator; distinct by (class "
                 "tree, data dtype, default dtype, query family)",
         "cells": len(cells), "skipped_cells": skipped[:20], "n_skipped": len(skipped),
-        "model_mismatches": len(mism), "not_well_formed": len(notwf), "spec_compared": nconv, "spec_mismatches": len(badconv), "direct_property_failures": n_direct,
+        "model_mismatches": len(mism), "not_well_formed": len(notwf), "repaired_finding_cells": repaired, "spec_compared": nconv, "spec_mismatches": len(badconv), "direct_property_failures": n_direct,
         "cases_with_failing_predicate": sum(1 for c in cases if c.fails),
         "queries": dist, "classes": cls_seen, "n_classes": len(cls_seen),
         "alloc_sites": meta["alloc"]["n_sites"], "alloc_files": meta["alloc"]["n_files"],
@@ -1125,6 +1176,20 @@ def run(ctx):
         "KeOpsLinearOperator cannot be constructed here (pykeops missing)",
         "operators are abstracted to storages/values/dtypes/flags: shapes and entries enter only through the value identity and "
         "through the direct dense comparison"]
+
+
+def repaired_cell(c):
+    """the listed finding (if any) whose cell this PASSING case belongs to: some node of the operator has the finding's
+    class and the query family is the finding's (when it names one).  Used only for findings that did NOT reproduce in
+    this run (a repair): there the model still transcribes the pinned, defective code."""
+    classes = {root_class(x) for x in all_subs(c.e)}
+    for e in common.load_known():
+        if e.get("property") != PROP or e.get("status") != "known":
+            continue
+        k = e.get("key", {})
+        if k.get("class") in classes and ("op" not in k or k["op"] == family(c.q)):
+            return e
+    return None
 
 
 def report_direct(ctx, meta, cases, mism, limit=None):
@@ -1161,7 +1226,7 @@ def fallback_meta():
 def replay(rp):
     torch.set_num_threads(1)
     meta = fallback_meta() or regenerate()
-    cs = rp.get("case")
+    cs = rp.get("case") or (rp.get("replay") or {}).get("case")
     if not cs:
         print("nothing to replay (obligation-level record):", json.dumps(rp)[:600])
         return 1
